@@ -435,6 +435,9 @@ def run_real(cli, case):
         args += [flag, arg]
     rc, out, err = cli.run(args + ["echo", "%h"], timeout=case.timeout)
     if rc == "timeout":
+        # a loaded machine is not a spinning pdsh: ask again with plenty of time
+        rc, out, err = cli.run(args + ["echo", "%h"], timeout=case.timeout * 6)
+    if rc == "timeout":
         return "timeout", None, b""
     if rc == 0:
         return "ok", [l.decode("latin1") for l in out.split(b"\n") if l], err
